@@ -11,7 +11,11 @@ use sdjwt::{Algorithm, Disclosure, HashAlgorithm, Header, Issuer, Jwk, KeyForEnc
 pub fn exec_conform(input: &Value) -> Value {
     let claims = input["claims"].clone();
     let paths: Vec<String> = input["paths"].as_array().map(|a| a.iter().map(|p| p.as_str().unwrap_or("").to_string()).collect()).unwrap_or_default();
-    let r = catch_unwind(AssertUnwindSafe(|| -> Result<String, sdjwt::Error> {
+    // the same Issuer object is asked `calls` times (C07 speaks of EVERY SD-JWT the issuer produces); with
+    // "first_fails" the first attempt uses a key that does not fit the header algorithm and is retried
+    let calls = input["calls"].as_u64().unwrap_or(1) as usize;
+    let first_fails = input["first_fails"].as_bool().unwrap_or(false);
+    let built = catch_unwind(AssertUnwindSafe(|| -> Result<Issuer, sdjwt::Error> {
         let mut iss = Issuer::new(claims.clone())?;
         for p in &paths {
             iss.disclosable(p);
@@ -23,13 +27,29 @@ pub fn exec_conform(input: &Value) -> Value {
         if input["cnf"].as_bool().unwrap_or(false) {
             iss.require_key_binding(Jwk::from_value(crate::keys::rsa_jwk())?);
         }
-        iss.encode(&KeyForEncoding::from_secret(super::common::SECRET))
+        Ok(iss)
     }));
-    match r {
-        Err(_) => json!({"encode": {"o": "panic"}}),
-        Ok(Err(_)) => json!({"encode": {"o": "err"}}),
-        Ok(Ok(token)) => json!({"encode": {"o": "ok", "v": token}, "readback": readback(&token)}),
+    let mut iss = match built {
+        Err(_) => return json!({"encode": {"o": "panic"}}),
+        Ok(Err(_)) => return json!({"encode": {"o": "err"}}),
+        Ok(Ok(i)) => i,
+    };
+    if first_fails {
+        let (ek, _) = crate::keys::pair("ES256");
+        let _ = catch_unwind(AssertUnwindSafe(|| iss.encode(&ek)));
     }
+    let mut outs: Vec<Value> = Vec::new();
+    for _ in 0..calls.max(1) {
+        let r = catch_unwind(AssertUnwindSafe(|| iss.encode(&KeyForEncoding::from_secret(super::common::SECRET))));
+        outs.push(match r {
+            Err(_) => json!({"encode": {"o": "panic"}}),
+            Ok(Err(_)) => json!({"encode": {"o": "err"}}),
+            Ok(Ok(token)) => json!({"encode": {"o": "ok", "v": token}, "readback": readback(&token)}),
+        });
+    }
+    let mut first = outs.remove(0);
+    first["more"] = Value::Array(outs);
+    first
 }
 
 fn hash_alg(name: &str) -> HashAlgorithm {
@@ -116,6 +136,7 @@ pub fn generate(thorough: bool, seed: u64, em: &mut Emitter) {
             "decoy": if r.chance(1, 3) { json!(1 + r.below(6)) } else { Value::Null }, "cnf": cnf,
             "expect_claims": expect, "subsets": subsets, "nontrivial": reserved || marks.is_empty() || gen::marking_nontrivial(&marks),
             "reserved_input": reserved, "own_cnf": own_cnf,
+            "calls": if r.chance(1, 5) { 2 + r.below(2) } else { 1 }, "first_fails": r.chance(1, 12),
             "tag": if reserved { json!("reserved_name_in_claims") } else if marks.is_empty() { json!("nothing_disclosable") } else { Value::Null },
         }));
     }
